@@ -18,6 +18,9 @@ type SVal struct {
 	Ty types.Type
 }
 
+// ghostReads counts evaluations of ghost(...): ghost state has no concrete counterpart in a replay.
+var ghostReads int
+
 type SpecEnv struct {
 	v       *Verifier
 	st      *State
@@ -815,6 +818,7 @@ func (e *SpecEnv) callExpr(n *ast.CallExpr) SVal {
 			if ref.Sort == SIface {
 				ref = Sel(ref, 1)
 			}
+			ghostReads++
 			return SVal{Select(e.st.getHeap(sortOf(T)), ref), T}
 		case "valid":
 			// valid(x): x's Go type invariants (unsigned ranges etc.)
